@@ -37,11 +37,12 @@ Bytes unhex(const std::string& s) { Bytes b; b.reserve(s.size() / 2); auto v = [
 // the part of an observation that must be the same whichever version reads the image: getters whose computation has been repaired
 // since the baseline (t-digest quantile interpolation) and sampling output of an internally inconsistent baseline state (ebpps) are left out
 std::string stable(const std::string& obs, const std::string& family) {
-  const bool td = family.rfind("tdigest", 0) == 0, eb = family.rfind("ebpps", 0) == 0, kl = family.rfind("kll", 0) == 0;
-  if (!td && !eb && !kl) return obs;
+  const bool td = family.rfind("tdigest", 0) == 0, eb = family.rfind("ebpps", 0) == 0, kl = family.rfind("kll", 0) == 0, vu = family.rfind("varopt_union", 0) == 0;
+  if (!td && !eb && !kl && !vu) return obs;
   std::istringstream is(obs); std::string tok, out;
   while (is >> tok) {
     if (td && tok.rfind("q=", 0) == 0) continue; if (eb && tok.rfind("result=", 0) == 0) continue;
+    if (vu && tok.rfind("items=[", 0) == 0) continue;                     // which items a union's get_result() keeps depends on the order it visits slots in (changed by a repair); k, n, sample count and sums stay
     if (kl && tok.rfind("wsum=", 0) == 0) continue;                       // the baseline's iterator reports weight 1 when level 0 is empty (repaired)
     if (kl && tok.rfind("items=[", 0) == 0) { std::string t2; bool skip = false; for (char c : tok) { if (c == '*') skip = true; else if (c == ',') skip = false; if (!skip) t2 += c; } tok = t2; }
     out += tok + " ";
@@ -55,7 +56,9 @@ void load_peer(const char* path) {
   while (std::getline(f, line)) {
     if (line.size() < 2) continue;
     std::istringstream ls(line); std::string tag; ls >> tag;
-    if (tag == "R") { u64 seed; int idx, variant; std::string h; ls >> seed >> idx >> variant >> h; std::string obs; std::getline(ls, obs); if (!obs.empty() && obs[0] == '\t') obs = obs.substr(1); Record r; r.variant = variant; r.img = unhex(h == "-" ? "" : h); r.obs = obs; auto& v = peer()[seed]; if (static_cast<int>(v.size()) == idx) v.push_back(r); }
+    if (tag == "R") { const size_t ck = line.rfind("\t$"); if (ck == std::string::npos || std::to_string(fnv1a(line.data(), ck)) != line.substr(ck + 2)) continue;   // cut or glued line
+      line.resize(ck); ls.str(line); ls.clear(); ls >> tag;
+      u64 seed; int idx, variant; std::string h; ls >> seed >> idx >> variant >> h; std::string obs; std::getline(ls, obs); if (!obs.empty() && obs[0] == '\t') obs = obs.substr(1); Record r; r.variant = variant; r.img = unhex(h == "-" ? "" : h); r.obs = obs; auto& v = peer()[seed]; if (static_cast<int>(v.size()) == idx) v.push_back(r); }
     else if (tag == "X") { u64 seed; ls >> seed; peer_failed().insert(seed); }
     else if (tag == "F") { RefImage r; std::string h; ls >> r.file >> r.family >> h; std::getline(ls, r.obs); if (!r.obs.empty() && r.obs[0] == '\t') r.obs = r.obs.substr(1); r.img = unhex(h); peer_refs().push_back(r); }
   }
@@ -195,7 +198,11 @@ int cmd_dump(const Args& a) {
     Plan p = w->generate(run_seed_for(seed, w->name(), i), tier); p.world = w->name();
     Family* f = family_at(p.cfg[0]);
     std::vector<Record> recs; try { recs = make_records(f, p, nullptr); } catch (const std::exception& e) { out << "X " << p.run_seed << " " << e.what() << "\n"; continue; }
-    for (size_t k = 0; k < recs.size(); k++) out << "R " << p.run_seed << " " << k << " " << recs[k].variant << " " << (recs[k].img.empty() ? "-" : hex(recs[k].img)) << "\t" << recs[k].obs << "\n";
+    // every record line ends with a checksum of itself: a writer that dies (the old release on one of its repaired defects) leaves a cut line at the end of
+    // its part file, which must not be read as a record
+    for (size_t k = 0; k < recs.size(); k++) { std::ostringstream ln; ln << "R " << p.run_seed << " " << k << " " << recs[k].variant << " " << (recs[k].img.empty() ? "-" : hex(recs[k].img)) << "\t" << recs[k].obs;
+      const std::string body = ln.str(); out << body << "\t$" << fnv1a(body.data(), body.size()) << "\n"; }
+    out.flush();
   }
   const std::string refs = a.get("refs");
   if (!refs.empty()) {
